@@ -27,7 +27,13 @@ getters read from the editor.  This file proves
    (`check_done_iff`, `counters_zero_when_done`), `aux_Check = 1 ↔ aux_Length > 0` (`aux_check_iff_length`), the
    enumeration loop hands out `paginated_candidates()` (`cand_loop_hands_out`);
 4. **`_static` variants**: equal to the heap variant whenever the text fits the buffer (`static_eq_heap_fits`), a
-   NUL-terminated whole-character prefix otherwise (`static_prefix`: C15's `cstr_wellformed_all`).
+   NUL-terminated whole-character prefix otherwise (`static_prefix`: C15's `cstr_wellformed_all`); a `_static` call
+   writes its own buffer only (`plain_keeps_iters`);
+5. **histories** (§7): `run_append`, `insert_getter_anywhere` (a getter call of any kind inserted after any prefix),
+   `apply_keeps_cursorInv` / `run_keeps_cursorInv` / `cursor_le_len_after_history` (C05's invariant through the call
+   glue: `0 ≤ cursor_Current ≤ buffer_Len` after every history of modelled C calls and getter calls),
+   `cand_loop_hands_out` / `enumerate_then_loop` (the documented enumeration loop hands out `paginated_candidates()`);
+6. NULL context (`null_answers`), the legacy mode getters (`value_mode`, `mode_getters_default`), non-vacuity examples.
 
 `buffer_Len` is the number of SYMBOLS of the pre-edit buffer (`editor.len()`), not the number of characters of
 `buffer_String`: a syllable without a word is displayed spelled out (harness statistic
@@ -723,7 +729,182 @@ theorem plain_keeps_iters (f : GFacts) (s s' : GSlots) (fn : String) (v : GVal)
     | panic p => rw [hv] at h; cases h
     | outOfFuel => rw [hv] at h; cases h
 
-/-! ## 5. NULL context -/
+/-! ## 7. histories: a getter inserted anywhere, the cursor invariant at the C level, the enumeration loop -/
+
+section Histories
+variable {D L : Type} (env : Env D L) (bopo : L → Text)
+
+/-- running a history in two parts -/
+theorem run_append (a b : List GCall) : ∀ (g : GCtx D L), g.run env bopo (a ++ b) =
+    match g.run env bopo a with
+    | .ok (g1, r1) =>
+      match g1.run env bopo b with
+      | .ok (g2, r2) => .ok (g2, r1 ++ r2)
+      | .panic p => .panic p
+      | .outOfFuel => .outOfFuel
+    | .panic p => .panic p
+    | .outOfFuel => .outOfFuel := by
+  induction a with
+  | nil =>
+    intro g
+    simp only [List.nil_append, GCtx.run]
+    cases g.run env bopo b with
+    | ok x => obtain ⟨g2, r2⟩ := x; simp
+    | panic p => rfl
+    | outOfFuel => rfl
+  | cons c a ih =>
+    intro g
+    simp only [List.cons_append, GCtx.run]
+    cases g.step env bopo c with
+    | ok x =>
+      obtain ⟨g', r⟩ := x
+      simp only
+      rw [ih g']
+      cases g'.run env bopo a with
+      | ok y =>
+        obtain ⟨g1, r1⟩ := y
+        simp only
+        cases g1.run env bopo b with
+        | ok z => obtain ⟨g2, r2⟩ := z; simp
+        | panic p => rfl
+        | outOfFuel => rfl
+      | panic p => rfl
+      | outOfFuel => rfl
+    | panic p => rfl
+    | outOfFuel => rfl
+
+/-- **a getter call of ANY kind inserted ANYWHERE**: after any history `pre` (modelled calls and getters of every kind),
+    inserting one getter call before a continuation `post` of modelled calls and slot-blind getters changes no result of
+    `pre` and none of `post`, and the final context of the modelled calls is the same -/
+theorem insert_getter_anywhere (pre post : List GCall) (hb : ∀ c ∈ post, GCall.blind c = true) (q : Getter)
+    {g gp gq g1 : GCtx D L} {rp rs : List GRes} {v : GVal}
+    (hpre : g.run env bopo pre = .ok (gp, rp)) (hq : gp.get env bopo q = .ok (gq, v))
+    (hpost : gp.run env bopo post = .ok (g1, rs)) :
+    g.run env bopo (pre ++ post) = .ok (g1, rp ++ rs) ∧
+    ∃ g2, g.run env bopo (pre ++ .get q :: post) = .ok (g2, rp ++ .val v :: rs) ∧ g2.ctx = g1.ctx := by
+  refine ⟨?_, ?_⟩
+  · rw [run_append, hpre]; simp only [hpost]
+  · obtain ⟨g2, h2, hc⟩ := insert_getter env bopo hq post hb hpost
+    refine ⟨g2, ?_, hc⟩
+    rw [run_append, hpre]; simp only [h2]
+
+/-- one modelled C call keeps C05's invariant of the composition editor (`C05.cursor_le_len_editor` through the glue) -/
+theorem apply_keeps_cursorInv {c c' : CCtx D L} {op : COp} {rc : Int} (hi : C05.CursorInv c.editor.shared.com)
+    (h : c.apply env op = .ok (c', rc)) : C05.CursorInv c'.editor.shared.com := by
+  unfold CCtx.apply at h
+  cases ht : translate c.facts op with
+  | ok gl =>
+    rw [ht] at h
+    dsimp only at h
+    cases hr : runCall env c.editor gl.call with
+    | ok x =>
+      obtain ⟨e', b⟩ := x
+      rw [hr] at h
+      simp only [Outcome.ok.injEq, Prod.mk.injEq] at h
+      have hrun := C06CApi.runCall_run env c.editor gl.call
+      rw [hr] at hrun
+      simp only [Outcome.map] at hrun
+      rw [← h.1]
+      exact C05.cursor_le_len_editor env _ c.editor e' hi hrun.symm
+    | panic p => rw [hr] at h; cases h
+    | outOfFuel => rw [hr] at h; cases h
+  | panic p => rw [ht] at h; cases h
+  | outOfFuel => rw [ht] at h; cases h
+
+theorem run_keeps_cursorInv (ops : List COp) : ∀ (c c' : CCtx D L) (rcs : List Int),
+    C05.CursorInv c.editor.shared.com → c.run env ops = .ok (c', rcs) → C05.CursorInv c'.editor.shared.com := by
+  induction ops with
+  | nil =>
+    intro c c' rcs hi h
+    simp only [CCtx.run, Outcome.ok.injEq, Prod.mk.injEq] at h
+    rw [← h.1]; exact hi
+  | cons op ops ih =>
+    intro c c' rcs hi h
+    simp only [CCtx.run] at h
+    cases h1 : c.apply env op with
+    | ok x =>
+      obtain ⟨c1, r⟩ := x
+      rw [h1] at h
+      simp only at h
+      cases h2 : c1.run env ops with
+      | ok y =>
+        obtain ⟨c2, rs⟩ := y
+        rw [h2] at h
+        simp only [Outcome.ok.injEq, Prod.mk.injEq] at h
+        rw [← h.1]
+        exact ih c1 c2 rs (apply_keeps_cursorInv env hi h1) h2
+      | panic p => rw [h2] at h; cases h
+      | outOfFuel => rw [h2] at h; cases h
+    | panic p => rw [h1] at h; cases h
+    | outOfFuel => rw [h1] at h; cases h
+
+/-- **`0 ≤ cursor_Current ≤ buffer_Len` after EVERY history of modelled C calls and getter calls** from a context that
+    satisfies C05's invariant (a new context does: `C05.cursorInv_new`) -/
+theorem cursor_le_len_after_history (cs : List GCall) {g g' : GCtx D L} {rs : List GRes} {f : GFacts}
+    (hi : C05.CursorInv g.ctx.editor.shared.com) (h : g.run env bopo cs = .ok (g', rs))
+    (hf : GFacts.ofEditor env bopo g'.ctx.editor = .ok f) (hlen : g'.ctx.editor.shared.com.len < 2147483648) :
+    ∃ cur len, g'.value env bopo "chewing_cursor_Current" = .ok (.int cur) ∧
+      g'.value env bopo "chewing_buffer_Len" = .ok (.int len) ∧ 0 ≤ cur ∧ cur ≤ len :=
+  cursor_le_len env bopo hf
+    (run_keeps_cursorInv env (strip cs) g.ctx g'.ctx (rcsOf rs) hi (getters_do_not_disturb env bopo cs g g' rs h)) hlen
+
+end Histories
+
+/-- **the documented loop `Enumerate; while hasNext { String }` hands out exactly the strings in the iterator slot**, in
+    order, and leaves the slot exhausted (a list is open; fuel above the number of strings) -/
+theorem cand_loop_hands_out (f : GFacts) (hsel : f.isSelecting = true) (cs : List Text) :
+    ∀ (s : GSlots) (acc : List GVal) (n : Nat), cs.length < n → s.candIter = some cs →
+      ∃ s', candLoop f n s acc = .ok (s', acc.reverse ++ cs.map candHeap) ∧ s'.candIter = some [] := by
+  induction cs with
+  | nil =>
+    intro s acc n hn hit
+    cases n with
+    | zero => simp at hn
+    | succ n =>
+      refine ⟨s, ?_, hit⟩
+      simp [candLoop, getOn, hsel, hit]
+  | cons t ts ih =>
+    intro s acc n hn hit
+    cases n with
+    | zero => simp at hn
+    | succ n =>
+      obtain ⟨s', h1, h2⟩ := ih { s with candIter := some ts } (candHeap t :: acc) n
+        (by simp only [List.length_cons] at hn; omega) rfl
+      refine ⟨s', ?_, h2⟩
+      simp [candLoop, getOn, hsel, hit, h1]
+
+/-- `chewing_cand_Enumerate` + the loop = `paginated_candidates()`: everything from the first item of the current page on
+    (`C07.enumerate_is_page`: `all_candidates().drop(page * per_page)`) -/
+theorem enumerate_then_loop (f : GFacts) (hsel : f.isSelecting = true) {cs : List Text} (hp : f.paginated = some cs)
+    (s : GSlots) (n : Nat) (hn : cs.length < n) :
+    ∃ s1 s2, getOn f s .candEnumerate = .ok (s1, .unit) ∧
+      candLoop f n s1 [] = .ok (s2, cs.map candHeap) ∧ s2.candIter = some [] := by
+  obtain ⟨s2, h1, h2⟩ := cand_loop_hands_out f hsel cs { s with candIter := some cs } [] n hn rfl
+  refine ⟨{ s with candIter := some cs }, s2, ?_, by simpa using h1, h2⟩
+  simp only [getOn, hp]
+
+/-! ## 8. NULL context, mode getters -/
+
+/-- a legacy mode getter `chewing_get_<X>` is `chewing_config_get_int` of the option C16's generated table names for it
+    (`Config.legacyGet`), read from the editor's options -/
+theorem value_mode (f : GFacts) (s : GSlots) (fn : String) :
+    getOn f s (.mode fn) = .ok (s, .int (Config.legacyGet fn { Config.init with opts := f.options })) := rfl
+
+/-- on the default options of the editor model: Chinese mode 1, half shape 0, 10 per page, limit 39, the rest 0 -/
+theorem mode_getters_default :
+    ["chewing_get_ChiEngMode", "chewing_get_ShapeMode", "chewing_get_candPerPage", "chewing_get_maxChiSymbolLen",
+     "chewing_get_addPhraseDirection", "chewing_get_spaceAsSelection", "chewing_get_escCleanAllBuf",
+     "chewing_get_autoShiftCur", "chewing_get_easySymbolInput", "chewing_get_phraseChoiceRearward",
+     "chewing_get_autoLearn"].map (fun fn => Config.legacyGet fn { Config.init with opts := cfgOfOptions {} })
+      = [1, 0, 10, 39, 0, 0, 0, 0, 0, 0, 0] := by decide
+
+/-- English mode / full shape answer 0 / 1 -/
+theorem mode_getters_switched :
+    Config.legacyGet "chewing_get_ChiEngMode"
+      { Config.init with opts := cfgOfOptions { languageMode := .english, characterForm := .full } } = 0 ∧
+    Config.legacyGet "chewing_get_ShapeMode"
+      { Config.init with opts := cfgOfOptions { languageMode := .english, characterForm := .full } } = 1 := by decide
+
 
 /-- every `int` getter answers -1 for a NULL context — except `cand_list_has_next/prev`, which answer 0; the heap string
     getters hand out an owned "", the static ones the global "" -/
@@ -739,7 +920,7 @@ theorem null_answers :
     (∀ fn ∈ ["chewing_buffer_String_static", "chewing_bopomofo_String_static", "chewing_commit_String_static",
         "chewing_aux_String_static"], getNull (.plain fn) = .ok .globalEmpty) := by decide
 
-/-! ## 6. non-vacuity -/
+/-! ## 9. non-vacuity -/
 
 /-- facts of an open list: 13 candidates, 4 per page, page 1 of 4 -/
 def exFacts : GFacts :=
